@@ -768,14 +768,18 @@ Definition db_merge (d : db) (k : disk) (order : list N) : db * disk * option ee
     let '(h1, ev6) := hf_close (c_io c) (ms_hint m) in
     let '(a1, ev7) := h_close (c_io c) (MData (ms_active_id m)) (ms_active m) in
     let '(o1, ev8) := ms_close_older (c_io c) (ms_older m) in
+    (* the active file is flushed before the marker is written: every write the scan's liveness tests
+       may have relied on (racing clients; a batch holds the engine lock until it has committed) is then
+       durable when the merge output becomes adoptable *)
+    let '(d3, evS) := db_sync d2 in
     (* marker: created, 4 raw bytes written, closed *)
     let ev9 := if c_io c =? io_MMap
                then [EvCreate MMarker; EvTrunc MMarker mmapBlockSize; EvWrite MMarker 4 (WMarker non_merge);
                      EvSync MMarker; EvTrunc MMarker 4; EvClose MMarker]
                else [EvCreate MMarker; EvWrite MMarker 4 (WMarker non_merge); EvSync MMarker; EvClose MMarker] in
-    (d2, mkDisk (k_data k) (k_hint k)
+    (d3, mkDisk (k_data k) (k_hint k)
            (Some (mkMdir (older_set o1 (ms_active_id m) a1) (Some h1) (Some non_merge))),
-     None, ev1 ++ ev2 ++ ev3 ++ ev4 ++ ev5 ++ ev6 ++ ev7 ++ ev8 ++ ev9)
+     None, ev1 ++ ev2 ++ ev3 ++ ev4 ++ ev5 ++ ev6 ++ ev7 ++ ev8 ++ evS ++ ev9)
   end.
 
 (* ---- Merge with writers racing the scan ------------------------------------------------ *)
@@ -851,13 +855,14 @@ Definition db_merge_i (d : db) (k : disk) (order : list N) (pro : list mop) (sch
     let '(h1, ev6) := hf_close (c_io c) (ms_hint m) in
     let '(a1, ev7) := h_close (c_io c) (MData (ms_active_id m)) (ms_active m) in
     let '(o1, ev8) := ms_close_older (c_io c) (ms_older m) in
+    let '(d3, evS) := db_sync d2 in
     let ev9 := if c_io c =? io_MMap
                then [EvCreate MMarker; EvTrunc MMarker mmapBlockSize; EvWrite MMarker 4 (WMarker non_merge);
                      EvSync MMarker; EvTrunc MMarker 4; EvClose MMarker]
                else [EvCreate MMarker; EvWrite MMarker 4 (WMarker non_merge); EvSync MMarker; EvClose MMarker] in
-    (d2, mkDisk (k_data k) (k_hint k)
+    (d3, mkDisk (k_data k) (k_hint k)
            (Some (mkMdir (older_set o1 (ms_active_id m) a1) (Some h1) (Some non_merge))),
-     None, ev1 ++ ev2 ++ evp ++ ev3 ++ ev4 ++ ev5 ++ ev6 ++ ev7 ++ ev8 ++ ev9)
+     None, ev1 ++ ev2 ++ evp ++ ev3 ++ ev4 ++ ev5 ++ ev6 ++ ev7 ++ ev8 ++ evS ++ ev9)
   end.
 
 (* ---- crash images -------------------------------------------------------------------- *)
